@@ -114,19 +114,19 @@ def a_configs(tier, seed):
             c2 = dict(c)
             if src in ("c03", "c04") and c2["brackets"] > 1:
                 c2["free_brackets"] = True   # brackets are drawn by the scheduler's own seeded generator here
-            out.append(dict(src=src, cfg=c2, max_states=1500 if tier == "quick" else 5000))
+            out.append(dict(src=src, cfg=c2, max_states=1500 if tier == "quick" else 3500))
     # PBT with a population large enough for a real choice among the upper quantile
     out.append(dict(src="generic", max_states=2500 if tier == "quick" else 8000,
                     cfg=dict(kind="pbt", seed=seed, R=3, W=4, T=6, F=0, mode="min", kw=dict(population_size=4))))
     # grid search on a numerical space while an unrelated grid search on a smaller space (same names) runs in the same process
-    out.append(dict(src="generic", max_states=1500 if tier == "quick" else 5000, noise_kw=dict(grid_space="num-small"),
+    out.append(dict(src="generic", max_states=1500 if tier == "quick" else 3500, noise_kw=dict(grid_space="num-small"),
                     cfg=dict(kind="fifo-grid", seed=seed, R=3, W=2, T=5, F=1, mode="min", kw=dict(grid_space="num"))))
     # one restrict_configurations list object handed to all instances
     for kind in ("fifo-random", "hb-promotion"):
-        out.append(dict(src="generic", max_states=1500 if tier == "quick" else 5000,
+        out.append(dict(src="generic", max_states=1500 if tier == "quick" else 3500,
                         cfg=dict(kind=kind, seed=seed, R=3, W=2, T=5, F=1, mode="min", kw=dict(restrict=8))))
         # ... and with initial points that are members of the list (fresh-process twins: always part of the children's set)
-        out.append(dict(src="generic", max_states=1500 if tier == "quick" else 5000, always_child=True,
+        out.append(dict(src="generic", max_states=1500 if tier == "quick" else 3500, always_child=True,
                         cfg=dict(kind=kind, seed=seed, R=3, W=2, T=6, F=1, mode="min", kw=dict(restrict=12, restrict_p2e=[5, 2]))))
     for kind in ["pbt", "dehb", "median", "rea", "fifo-random", "fifo-grid", "hb-rush-prom", "hb-cost", "fifo-bo"]:
         for W in (2, 3):
@@ -135,7 +135,7 @@ def a_configs(tier, seed):
             for mode in ("min", "max"):
                 if tier == "quick" and mode == "max" and kind not in ("pbt", "dehb"):
                     continue
-                out.append(dict(src="generic", max_states=1500 if tier == "quick" else 5000,
+                out.append(dict(src="generic", max_states=1500 if tier == "quick" else 3500,
                                 cfg=dict(kind=kind, seed=seed, R=3, W=W, T=4 if kind != "rea" else 5, F=1, mode=mode)))
     return out
 
@@ -171,7 +171,7 @@ def child_traces(tier, seed):
     allc = a_configs(tier, seed)
     step = 3 if tier == "quick" else 2
     for t in [c for i, c in enumerate(allc) if i % step == 0 or c.get("always_child")]:
-        t = dict(t, max_states=400 if tier == "quick" else 4000)
+        t = dict(t, max_states=400 if tier == "quick" else 2000)
         traces = []
 
         def on_state(w, hist, traces=traces):
